@@ -196,4 +196,14 @@ MUTANTS = [
   "edits": [("ractor/src/pg.rs", "        gs.value().members.values().cloned().collect::<Vec<_>>()", "        gs.value().members.values().take(1024).cloned().collect::<Vec<_>>()")]},
  {"name": "c11-members-wrong-key", "props": ["C11"], "rules": ["C11.R9"],
   "edits": [("ractor/src/pg.rs", "pub fn get_members(group_name: &GroupName) -> Vec<ActorCell> {\n    get_scoped_members(&DEFAULT_SCOPE.to_owned(), group_name)", "pub fn get_members(group_name: &GroupName) -> Vec<ActorCell> {\n    get_scoped_members(group_name, group_name)")]},
+ {"name": "c12-revert-f9-interval-needs-started-target", "props": ["C12"], "rules": ["C12.R3"],
+  "edits": [("ractor/src/time.rs", "        while actor.get_status() < crate::ActorStatus::Draining {", "        while crate::ACTIVE_STATES.contains(&actor.get_status()) {")]},
+ {"name": "c13-revert-f10-worker-queues-not-discarded", "props": ["C13"], "rules": ["C13.R9"],
+  "edits": [("ractor/src/factory/factoryimpl.rs", "                for mut msg in worker_props.take_queued_jobs() {\n                    handler.discard(DiscardReason::Shutdown, &mut msg);\n                }", "                let _ = worker_props.take_queued_jobs();")]},
+ {"name": "c20-revert-f13-proxy-stop-propagated", "props": ["C20"], "rules": ["C20.R8"],
+  "edits": [("ractor_cluster/src/node/node_session.rs", "                    let _ = actor\n                        .stop_and_wait(Some(\"remote_exit\".to_string()), None)\n                        .await;", "                    actor\n                        .stop_and_wait(Some(\"remote_exit\".to_string()), None)\n                        .await?;")]},
+ {"name": "c14-revert-f14-sticky-scan-in-flight-only", "props": ["C14"], "rules": ["C14.R3"],
+  "edits": [("ractor/src/factory/routing.rs", "            .find(|(_, worker)| worker.has_pending_key(&job.key))", "            .find(|(_, worker)| worker.is_processing_key(&job.key))")]},
+ {"name": "silent-interval-gate-as-table-of-live-states", "props": ["C12"], "expect": "silent",
+  "edits": [("ractor/src/time.rs", "        while actor.get_status() < crate::ActorStatus::Draining {", "        while actor.get_status() <= crate::ActorStatus::Upgrading {")]},
 ]
